@@ -34,12 +34,41 @@ def streams(ctx, res):
             "hypotheses_checked_on_real_tables": "barriersWF, sortedB, nb odd, lastOnes, depth<=wp, tableOK, shapeOK on every gtab line"}
 
 
+def translators_c10(repo):
+    """gen_gauss_ast (cmp + sampling path, shared with C11) and gen_lut_ast (buildLookupTables -> Generated/LutAst.lean, re-translated
+    from clang's AST on every run; tied to the hand model buildLUT by Proofs/LutAstEq.lean, statements in Properties/C10LutAst.lean)"""
+    import json as _json
+    out = dict(gc.translators_gauss(repo))
+    r = cl.run(["python3", os.path.join(cl.HERE, "gen_lut_ast.py"), "--repo", repo])
+    info = {"ok": r.returncode == 0}
+    if r.returncode != 0:
+        info["err"] = (r.stdout + r.stderr)[-2000:]
+    else:
+        try:
+            info.update(_json.loads(r.stdout.strip().splitlines()[-1]))
+            info.pop("node_kinds", None)
+        except Exception as e:
+            info["ok"] = False
+            info["err"] = "unparsable summary: %s" % e
+    out["gen_lut_ast"] = info
+    return out
+
+
+LUT_AST_TB = ("source-level tie of FastGaussianNoise::buildLookupTables: clang++-14's typed AST of include/nfl/prng/FastGaussianNoise.hpp instantiated for "
+              "<uint8_t,int32_t,1>, <uint16_t,int64_t,1>, <uint16_t,int64_t,2>, <uint8_t,uint64_t,2>, tools/gen_lut_ast.py's traversal and conventions "
+              "(members read before assigned = parameters, `barriers` = the list of barrier objects (MPFR part NOT translated); `if (_lu_depth == k)` resolved per "
+              "instantiation; new output_t[n]() / calloc / field stores / std::list::push_back (by name) = bounds-checked CLut operations; while / for = "
+              "CLut.whileFuel with fuel = bound of the incremented counter + 1 (out of fuel = none; sufficiency proved, not assumed); signed ++, int - / + read as "
+              "wrap-around, int division truncating: sites under translators.gen_lut_ast.ub_wrap_assumed; if (_verbose) output skipped) and the per-node semantics "
+              "of lean/NflVerif/Model/CSem.lean + CSemGauss.lean + CSemLut.lean")
+
+
 def search(ctx, res, problems):
     return gc.search_more(ctx, ["c10", "tv"])
 
 
 PROP = {
-    "streams": streams, "search": search, "translators": gc.translators_gauss,
+    "streams": streams, "search": search, "translators": translators_c10,
     "rule": ("real barriers + real lu_table/lu_table2 dumped (gtab: tableOK and the barrier hypotheses evaluated, builder model compared cell by cell); "
              "getNoise(out,1) on scripted strings (gdec): every probe of a bisection over the wp-word strings for each step of the step function "
              "(gstep: recovered step = barrier), each barrier and its neighbours, both ends of every first-level cell and of every second-level cell "
@@ -61,6 +90,7 @@ PROP = {
              "(Model/GaussParams.lean: tailOK, precOK); distinct = distinct lines, all non-trivial"),
     "trusted_base": props.COMMON_TB + [
         gc.GAUSS_AST_TB,
+        LUT_AST_TB,
         "the barrier table is a parameter of the model: read from the live object with -fno-access-control (its hypotheses are validated on every table seen)",
         "MPFR/GMP (used by the code and, at 1536 bits, by the harness's distance computation); the distance computation itself (harness/gauss.cpp tv_ratio_ppm) is trusted, not verified",
         "scripted nfl::fastrandombytes replaces the PRNG at link time",
